@@ -71,13 +71,21 @@ func corpus() []scenario {
 		{"gateway-services:stale-link:terminating-gateway:no-instance-to-front", []*Op{opCfg(tg, "term-gw", "*"), opCfg(sd, "db", "dest"), opCfg(sd, "db", "tcp")}},
 		{"gateway-services:missing-link:ingress-gateway:wildcard-expansion", []*Op{opReg("", "n1", idN1, sidecar("db-sidecar-proxy", "db")), opCfg(ig, "ingress-gw", "8080:*")}},
 		{"gateway-services:stale-link:ingress-gateway:no-instance-to-front", []*Op{opCfg(sd, "api", "dest"), opCfg(ig, "ingress-gw", "8080:*")}},
-		// ---- mesh-topology
+		// ---- mesh-topology (the first two: repaired in /repo by fe0fbdc — regression monitors, expected NOT to reproduce)
 		{"topology:pair-lacks-reference-to-registered-sidecar", []*Op{opReg("", "n1", idN1, sidecar("web-sidecar-proxy", "web", "db")), opReg("", "n2", idN2, sidecar("web-sidecar-proxy", "web", "db"))}},
 		{"topology:missing-pair:sidecar", []*Op{opReg("", "n1", idN1, sidecar("web-sidecar-proxy", "web", "db")), opReg("", "n2", idN2, sidecar("web-sidecar-proxy", "web", "db")),
 			opDereg("", "n2", "web-sidecar-proxy", "")}},
 		{"topology:stale-pair:no-sidecar-or-ingress-link-declares-it", []*Op{opReg("", "n1", idN1, sidecar("web-sidecar-proxy", "web", "db")), txnSvc("set", "n1", typical("web-sidecar-proxy", "web", false))}},
 		{"topology:stale-pair:imported-sidecar-that-declared-it-is-gone", []*Op{opReg("peer1", "n1", idN1, sidecar("api-sidecar-proxy", "api", "web")), opDereg("peer1", "n1", "", "")}},
 		{"topology:missing-pair:ingress", []*Op{opReg("", "n1", idN1, sidecar("db-sidecar-proxy", "db")), opCfg(ig, "ingress-gw", "8080:*")}},
+		{"topology:missing-pair:sidecar:upstream-dropped-by-another-sidecar", []*Op{opReg("", "n1", idN1, sidecar("web-sidecar-proxy", "web", "db")),
+			opReg("", "n2", idN2, sidecar("web-sidecar-proxy", "web", "db")), opReg("", "n2", idN2, sidecar("web-sidecar-proxy", "web"))}},
+		{"topology:missing-pair:imported-sidecar-declares-it", []*Op{opReg("peer1", "n1", idN1, sidecar("web-sidecar-proxy", "web", "db")),
+			opReg("", "n1", idN1, sidecar("web-sidecar-proxy", "web")), opDereg("", "n1", "web-sidecar-proxy", "")}},
+		{"topology:missing-pair:ingress-named-link", []*Op{opCfg(ig, "ingress-gw", "8080:*|8081:db"), opReg("", "n1", idN1, typical("db1", "db", true)), opDereg("", "n1", "db1", "")}},
+		{"topology:stale-pair:follows-stale-ingress-link", []*Op{opCfg(sd, "api", "dest"), opCfg(ig, "ingress-gw", "8080:*")}},
+		{"gateway-services:stale-link:ingress-gateway:not-cleaned-on-re-registration", []*Op{opCfg(ig, "ingress-gw", "8080:*"), opReg("", "n1", idN1, typical("web1", "web", true)),
+			opReg("", "n1", idN1, typical("web1", "web", false))}},
 		// ---- regression scenarios (nothing expected): the cascades of the property statement
 		{"", []*Op{opReg("", "n1", idN1, typical("web1", "web", false), storex.ChkArg{Node: "n1", ID: "c1", Status: "passing", SvcID: "web1"}, storex.ChkArg{Node: "n1", ID: "serfHealth", Status: "passing"}),
 			{Kind: "coord", Coords: []CoordArg{{Node: "n1", Val: 1}, {Node: "n1", Segment: "alpha", Val: 2}}},
